@@ -71,6 +71,8 @@ static void bs_harness_init(void)
   gu = bs_u; gx = bs_x;
   struct bs_sum_t bs_sums;
   BS_SUMS = bs_sums;
+  struct bs_pos_t bs_poss;
+  BS_POSS = bs_poss;
   bs_exc = 0;
 }
 #endif
